@@ -557,13 +557,15 @@ def _bounded_wrapper_problem(name, obj, vetted):
     extra = {n for n in obj.__code__.co_names if not (n in _WRAPPER_NAMES or n.startswith("MAX_"))}
     if extra:
         return "refers to %s" % sorted(extra)
-    for args in _WRAPPER_GRID:
+    kw_grid = [((), {"n": 5}), ((), {"x": 5}), ((), {"number": 2.567}), ((), {"number": 2.567, "ndigits": 1}), ((2.567,), {"ndigits": 2}), ((), {"iterable": [1, 2]}),
+               (([1, 2],), {"start": 1}), (([[1]],), {"start": []}), ((5,), {"n": 5}), ((), {"obj": [1]}), ((), {"x": "7"})]
+    for args, kwargs in [(a_, {}) for a_ in _WRAPPER_GRID] + kw_grid:
         try:
-            want = ("value", ref(*args))
+            want = ("value", ref(*args, **kwargs))
         except Exception as e:  # noqa: BLE001
             want = ("raise", type(e).__name__)
         try:
-            got = ("value", obj(*args))
+            got = ("value", obj(*args, **kwargs))
         except ValueError as e:
             got = ("raise", "ValueError")
             if want[0] == "value":
@@ -571,7 +573,7 @@ def _bounded_wrapper_problem(name, obj, vetted):
         except Exception as e:  # noqa: BLE001
             got = ("raise", type(e).__name__)
         if got != want or (got[0] == "value" and type(got[1]) is not type(want[1])):
-            return "differs from %s on %r: %r instead of %r" % (base, args, got, want)
+            return "differs from %s on %r %r: %r instead of %r" % (base, args, kwargs, got, want)
     return None
 
 
